@@ -36,7 +36,7 @@ ASSUMPTIONS = [
     "and k*dr may fall on different sides); their count is reported",
     "force rows whose numerical-fallback stencil (h=1e-6) crosses a piecewise boundary are not compared",
 ]
-REQUIRED = {"route:api_class": 15, "route:writePotentials": 15, "route:potable": 25,
+REQUIRED = {"special:root_on_grid": 8, "special:decay_tail": 8, "route:api_class": 15, "route:writePotentials": 15, "route:potable": 25,
             "blocks>=2": 20, "force:numeric_fallback": 10, "reversed_labels": 5}
 FMT = ("f", 8)
 
@@ -50,15 +50,24 @@ def _case(draw, nr_max, min_pots=1, max_pots=4):
     return m
 
 
+@st.composite
+def _special(draw, kind):
+    m = draw(gen.special_pair_model(kind, dlpoly=False))
+    m["route"] = draw(st.sampled_from(["api_class", "writePotentials", "potable"]))
+    return m
+
+
 def strategy(tier):
     return _case(60 if tier == "quick" else 400)
 
 
 def strata(tier):
     if tier == "quick":
-        return [("one", _case(60, 1, 1), 4), ("several", _case(60, 2, 4), 5), ("large", _case(400), 1)]
+        return [("one", _case(60, 1, 1), 4), ("several", _case(60, 2, 4), 5), ("large", _case(400), 1),
+                ("root_on_grid", _special("root_on_grid"), 1), ("decay_tail", _special("decay_tail"), 1)]
     return [("one", _case(60, 1, 1), 3), ("several", _case(60, 2, 4), 3), ("medium", _case(400), 3),
-            ("large", _case(5000, 1, 2), 1)]
+            ("large", _case(5000, 1, 2), 1), ("root_on_grid", _special("root_on_grid"), 1),
+            ("decay_tail", _special("decay_tail"), 1)]
 
 
 def budget(tier):
@@ -174,6 +183,8 @@ def verify_text(case, out, route_kind, ctx=""):
 
 def check_case(case):
     cls = ["route:" + case["route"], "blocks=%d" % len(case["pair"])]
+    if case.get("special"):
+        cls.append("special:" + case["special"])
     if len(case["pair"]) >= 2:
         cls.append("blocks>=2")
     if case["nr"] > 60:
